@@ -84,6 +84,11 @@ type c12World struct {
 	hpA, hpB map[filter.ID]*hashprefix.Filter
 	cmB      *world.CacheManager
 	ver      int
+
+	// hashless, if set, decides whether the next version of a hash list has
+	// no hosts at all (sequential sub-batches only: the stateless twin is
+	// the reference there, not the version markers).
+	hashless func() bool
 }
 
 func (w *c12World) publish(ver int) {
@@ -116,7 +121,13 @@ func (w *c12World) publish(ver int) {
 	}
 	l.origin.Set("/ss-general", ss.String())
 	for _, id := range hashIDs {
-		l.origin.Set(hashPath(id), hashListText(ver, hashTag(id))+"always."+hashTag(id)+".test\n")
+		text := hashListText(ver, hashTag(id)) + "always." + hashTag(id) + ".test\n"
+		if w.hashless != nil && w.hashless() {
+			// A version without any host: comments and blank lines only.
+			text = fmt.Sprintf("# version %d lists nothing\n\n", ver)
+			w.l.s.Probe("hash-list-without-hosts")
+		}
+		l.origin.Set(hashPath(id), text)
 	}
 }
 
@@ -140,7 +151,9 @@ func (w *c12World) refresh(first bool, which string) {
 				err = hp[id].Refresh(ctx)
 			}
 			if err != nil {
-				panic(fmt.Errorf("hash refresh without faults failed: %w", err))
+				w.l.s.Failf("C12/refresh-failed", "refresh of a well-formed hash list failed without a fault", "%s: %v", id, err)
+
+				return
 			}
 		}
 	}
@@ -313,6 +326,7 @@ func runC12(s *kernel.Sim, cfg string) {
 		return
 	}
 
+	w.hashless = func() bool { return t.Chance(1, 6, "hash-list-without-hosts") }
 	n := t.Range(5, 40, "steps")
 	for i := 0; i < n && s.Failed() == nil; i++ {
 		switch t.Choose(8, "step") {
